@@ -89,6 +89,26 @@ def project(obj):
     return st
 
 
+LAST_PARQUET = [None, None]
+
+
+def bounded_reread(want, cols):
+    """read_parquet_dask(geometry=g, bounds=box): the partition filter must use the bounds of the ACTIVE column -> '' or a complaint"""
+    from spatialpandas.io import read_parquet_dask
+    path, g = LAST_PARQUET
+    full = read_parquet_dask(path, geometry=g).compute()
+    if "v" not in full.columns:
+        return ""
+    for box in (BOX_PTS, BOX_LINES):
+        exp = sorted(full[full[want["active"]].array.intersects_bounds((box[0], box[2], box[1], box[3]))]["v"])
+        got = read_parquet_dask(path, geometry=g, bounds=(box[0], box[2], box[1], box[3]))
+        got = sorted(got.cx[box[0]:box[1], box[2]:box[3]].compute()["v"])
+        if got != exp:
+            return (f"read_parquet_dask(geometry={g!r}, bounds=box) then cx[box] selects v={got}, but the rows whose active geometry "
+                    f"{want['active']!r} intersects the box are v={exp} (box x {box[0]}..{box[1]}, y {box[2]}..{box[3]})")
+    return ""
+
+
 def apply(obj, h, tmpdir, counter):
     import dask.dataframe as dd
     from spatialpandas.io import read_parquet_dask
@@ -141,6 +161,7 @@ def apply(obj, h, tmpdir, counter):
     if op == "parquet_roundtrip":
         path = os.path.join(tmpdir, f"ds{counter}.parq")
         obj.to_parquet(path)
+        LAST_PARQUET[:] = [path, arg or None]
         return read_parquet_dask(path, geometry=arg or None)
     raise ValueError(op)
 
@@ -205,6 +226,9 @@ def run(tier: str, seed: int) -> int:
                         if want is None:
                             continue
                         ok, why = conforms(got, want, obj, cols)
+                        if ok and h["op"] == "parquet_roundtrip" and want["kind"] == "dask" and want["active"] not in ("UNSPEC", "NONE"):
+                            why = bounded_reread(want, cols)
+                            ok = not why
                         if not ok:
                             chk.violation(f"{colsname}|{h['op']}|{why[:60]}", " ; ".join(desc) + f"\n  {why}\n  implementation state {got}; model state "
                                           f"kind={want['kind']} cols={want['cols']} active={want['active']}", "# " + " ; ".join(desc),
